@@ -74,6 +74,9 @@ class Opaque:
         return 'Opaque(%s)' % self.desc
 
 
+NONMUTATING = {'operator*', 'operator->', 'value', 'front', 'back', 'begin', 'end', 'cbegin', 'cend', 'at', 'operator[]', 'data', 'find',
+               'lower_bound', 'upper_bound', 'top', 'get', 'c_str', 'str'}
+ACCESSOR_COMPONENTS = {'front', 'back', 'begin', 'cbegin'}
 CONTAINER_TYPES = ('std::vector<', 'std::deque<', 'std::queue<', 'std::list<')
 MATH_FUNCS = {
     'sin': sp.sin, 'cos': sp.cos, 'tan': sp.tan, 'atan': sp.atan, 'asin': sp.asin, 'acos': sp.acos,
@@ -221,6 +224,14 @@ class Reader:
             if e['id'] in st.alias:
                 return ('field', st.alias[e['id']])
             return ('local', e['id'])
+        # element accessors of library containers are pseudo path components: q.front(), m.begin()->second ...
+        if k == 'MCall' and e.get('m') in ACCESSOR_COMPONENTS and not e.get('args') and not e.get('inrepo'):
+            b = self.lvalue(e['obj'], st, ctx)
+            if b and b[0] == 'field':
+                return ('field', b[1] + ('<%s>' % e['m'].lstrip('c'),))
+            return None
+        if k == 'Op' and e.get('op') in ('->', '*') and len(e.get('args', [])) == 1 and not e.get('inrepo'):
+            return self.lvalue(e['args'][0], st, ctx)
         return None
 
     def assign(self, lv, v, st):
@@ -322,7 +333,7 @@ class Reader:
         if k in ('Int', 'Float', 'Bool'):
             return [(num(e['v']), st)]
         if k == 'Str':
-            return [(Opaque(repr(e.get('v'))), st)]
+            return [(sp.Symbol('"%s"' % e.get('v')), st)]
         if k == 'DefaultArg':
             return self.ev(e['e'], st, ctx)
         if k == 'Cast':
@@ -445,6 +456,7 @@ class Reader:
             for (vals, s2) in self.evs([e['l'], e['r']], st, ctx):
                 a, b = vals
                 try:
+                    a, b = _as_bool(a), _as_bool(b)
                     v = sp.And(a, b) if op == '&&' else sp.Or(a, b)
                 except Exception:
                     v = Opaque(pp(e))
@@ -558,6 +570,10 @@ class Reader:
                 return self.ev(args[0], st, ctx)
             if len(args) == 1 and e['t'].get('c') in ('int', 'fp'):
                 return self.ev(args[0], st, ctx)
+            if e['cls'].startswith('std::basic_string<') and args and strip_casts(args[0]).get('k') == 'Str':
+                return self.ev(args[0], st, ctx)
+            if e['cls'].startswith('std::basic_string<') and not args:
+                return [(sp.Symbol('""'), st)]
         # math library
         base = fq.split('<')[0].split('::')[-1]
         if k == 'Call' and (fq.startswith('std::') or '::' not in fq) and base in MATH_FUNCS and not e.get('inrepo'):
@@ -657,6 +673,18 @@ class Reader:
             return out
         # anything else: evaluate arguments for their effects, result opaque
         out = []
+        if obj is not None and k in ('MCall', 'Op') and not e.get('mconst') and not e.get('mstatic') and name not in NONMUTATING:
+            lvw = self.lvalue(obj, st, ctx)
+            if lvw and lvw[0] == 'field':
+                # a non-const library method on a field (optional::reset, string::clear ...) mutates it
+                res = []
+                for (vals, s2) in self.evs(args, st, ctx):
+                    old = self.get_field(lvw[1], s2, obj['t'])
+                    sv = [v for v in vals if isinstance(v, sp.Basic)]
+                    newv = sp.Function('%s' % name)(*( [old] if isinstance(old, sp.Basic) else []) + sv) if len(sv) == len(vals) else Opaque(pp(e))
+                    self.assign(lvw, newv, s2)
+                    res.append((Opaque(pp(e)), s2))
+                return res
         allargs = ([obj] if obj is not None else []) + args
         for (vals, s2) in self.evs(allargs, st, ctx):
             sv = [v for v in vals]
@@ -725,6 +753,15 @@ def _struct_member_name(e):
     if x is not None and x.get('k') == 'Ref' and x.get('rk') in ('param', 'local'):
         return '.'.join([x['name']] + parts[::-1])
     return None
+
+
+def _as_bool(v):
+    from sympy.logic.boolalg import Boolean
+    if isinstance(v, Boolean) or v in (sp.true, sp.false):
+        return v
+    if isinstance(v, sp.Basic):
+        return sp.Ne(v, 0)
+    raise TypeError('not a boolean')
 
 
 def _truth(c):
